@@ -302,8 +302,9 @@ def run_search_check(pid, tier, obligations, prefixes, functions, bounds, outsid
                other_property_kinds_seen=sorted({k for r in results for k in r['kinds'] if not k.startswith(tuple(prefixes))}),
                engine='Engine A (parsing.h compiled with float := symbolic linear scalar, libz3 4.8.12) + Engine N (native float build, translated parsing.pyx)')
     ev = dict(property_id=pid, tier=tier, seed=seed, level='model_checking', coverage=cov, assumptions=assumptions, wall_s=round(time.time() - t0, 2), violations=len(vio_lines))
-    os.makedirs(os.path.join(VERIF, 'evidence'), exist_ok=True)
-    json.dump(ev, open(os.path.join(VERIF, 'evidence', pid + '.json'), 'w'), indent=1)
+    EVD = os.environ.get('VERIF_EVIDENCE_DIR') or os.path.join(VERIF, 'evidence')
+    os.makedirs(EVD, exist_ok=True)
+    json.dump(ev, open(os.path.join(EVD, pid + '.json'), 'w'), indent=1)
     for l in lines:
         print(l)
     print('%s %s: %d obligations, %d paths, %d solver queries (%.1fs solver), %d native validations, exhaustive=%s, wall %.1fs'
